@@ -1,11 +1,27 @@
 """Test apps for C14 (importable by loky worker processes: /verif/harness is on PYTHONPATH).
 
-A composed app `c14_load + c14_g1 + c14_g2 + <writer>` is driven by a *plan*:
-    plan[name] = [outcome of step 1 (loader), outcome of step 2 (g1), outcome of step 3 (g2)]
-with outcome in  ok | raise | none | wrong | nc  (ComposedApp.tla, Outcomes).  Each
-step's `main` looks up the record it is working on by the *name of its data source*
-and enacts the outcome the plan (chosen by TLC) prescribes; nothing here decides what
-the store should contain afterwards - that is the spec's `written`.
+A composed app `<loader> + <step 2> + <step 3> + <writer>` is driven by a *plan*:
+    plan[name] = [outcome of step 1 (loader), outcome of step 2, outcome of step 3]
+with outcome in  ok | raise | none | wrong | nc  (ComposedApp.tla, Outcomes).  Each step's
+`main` finds out which record it is working on and enacts the outcome the plan (chosen by
+TLC) prescribes; nothing here decides what the store should contain afterwards - that is
+the spec's `written`.
+
+Two families instantiate the outcome classes with different VALUE CLASSES (vclass[name]):
+
+  c14_load + c14_g1 + c14_g2      steps typed on SequenceCollection; the values that flow are
+                                  cogent3 objects with info.source; vclass is the class of
+                                  the wrongly typed value a `wrong` step returns:
+                                    dict_source     {"source": ...}              names its source
+                                    dict_info       {"info": {"source": ...}}    names its source
+                                    dict_info_none  {"info": None, ...} as Sequence.to_rich_dict()
+                                                    / a json record has it       does not
+                                    dict_plain      no info, no source           does not
+  c14_vload + c14_v1 + c14_v2     steps accept dict | str | bytes | SequenceCollection; vclass is
+                                  the class of the value that flows from step to step, i.e. of
+                                  the value handed to the step that fails:
+                                    seqs, dict_info, str path                    name their source
+                                    dict_info_none, dict_plain, bytes            do not
 
 Control of the schedule (parallel runs), all inside the loader's `main`:
   ctl/started/<name>   written when a worker picked the task up
@@ -25,6 +41,11 @@ from cogent3.app.typing import IdentifierType, SerialisableType, UnalignedSeqsTy
 
 GATE_TIMEOUT = float(os.environ.get("VERIF_C14_GATE_TIMEOUT", "400"))
 
+NAMED_WRONG = ("dict_source", "dict_info")
+UNNAMED_WRONG = ("dict_info_none", "dict_plain")
+NAMED_VALUES = ("seqs", "dict_info", "str")
+UNNAMED_VALUES = ("dict_info_none", "dict_plain", "bytes")
+
 
 class C14Error(Exception):
     """what a failing step raises"""
@@ -37,13 +58,22 @@ class GateTimeout(BaseException):
 T = Union[SerialisableType, UnalignedSeqsType]
 
 
-def _name_of(val) -> str:
-    return get_unique_id(get_data_source(val))
+def _wrong_value(vclass, name, source, step, trail):
+    """a value of a type the next step does not accept"""
+    d = {"c14_name": name, "c14_wrong_from": step, "c14_trail": list(trail)}
+    if vclass == "dict_source":
+        d["source"] = source
+    elif vclass == "dict_info":
+        d["info"] = {"source": source}
+    elif vclass == "dict_info_none":
+        d.update({"name": name, "seq": "ACGT", "moltype": "dna", "info": None})
+    elif vclass != "dict_plain":
+        raise GateTimeout(f"unknown wrong-value class {vclass!r}")
+    return d
 
 
-def _enact(app_name, step, plan, val, source, ok, trail):
-    """what `main` of step `step` does with `val` (data source `source`)"""
-    name = get_unique_id(source)
+def _enact(app_name, step, plan, name, val, nc_source, ok, wrong):
+    """what `main` of step `step` does with `val`, a value of the record called `name`"""
     out = plan[name][step - 1]
     if out == "ok":
         return ok()
@@ -52,55 +82,63 @@ def _enact(app_name, step, plan, val, source, ok, trail):
     if out == "none":
         return None
     if out == "wrong":
-        # a value of a type the next step does not accept; it still names its source
-        return {"source": source, "c14_wrong_from": step, "c14_trail": list(trail)}
+        return wrong()
     if out == "nc":
-        return NotCompleted("FAIL", app_name, f"c14-fail {name} step {step}", source=source)
+        return NotCompleted("FAIL", app_name, f"c14-fail {name} step {step}", source=nc_source)
     raise GateTimeout(f"unknown outcome {out!r}")
 
 
+def _schedule(app, name):
+    if not app.ctl:
+        return
+    ctl = Path(app.ctl)
+    t0 = time.monotonic_ns()
+    (ctl / "started" / name).write_text(str(os.getpid()))
+    if app.gated:
+        gate = ctl / "gate" / name
+        deadline = time.monotonic() + GATE_TIMEOUT
+        while not gate.exists():
+            if time.monotonic() > deadline:
+                raise GateTimeout(f"gate for {name} never opened")
+            time.sleep(0.004)
+    elif name in app.delays:
+        time.sleep(app.delays[name])
+    t1 = time.monotonic_ns()
+    tmp = ctl / "stamp" / f".{name}.{os.getpid()}"
+    tmp.write_text(f"{t0} {t1}")
+    os.replace(tmp, ctl / "stamp" / name)
+
+
+def _read_record(path):
+    text = path.read() if hasattr(path, "read") else Path(path).read_text()
+    lines = [l.strip() for l in text.splitlines() if l.strip()]
+    return {lines[i][1:]: lines[i + 1] for i in range(0, len(lines), 2)}
+
+
+# ------------------------------------------------------------------ sequence family
 @define_app(app_type=LOADER)
 class c14_load:
     """step 1: reads one fasta record into a SequenceCollection"""
 
-    def __init__(self, plan, ctl="", gated=False, delays=None):
+    def __init__(self, plan, ctl="", gated=False, delays=None, vclass=None):
         self.plan = plan
         self.ctl = ctl
         self.gated = gated
         self.delays = delays or {}
-
-    def _schedule(self, name):
-        if not self.ctl:
-            return
-        ctl = Path(self.ctl)
-        t0 = time.monotonic_ns()
-        (ctl / "started" / name).write_text(str(os.getpid()))
-        if self.gated:
-            gate = ctl / "gate" / name
-            deadline = time.monotonic() + GATE_TIMEOUT
-            while not gate.exists():
-                if time.monotonic() > deadline:
-                    raise GateTimeout(f"gate for {name} never opened")
-                time.sleep(0.004)
-        elif name in self.delays:
-            time.sleep(self.delays[name])
-        t1 = time.monotonic_ns()
-        tmp = ctl / "stamp" / f".{name}.{os.getpid()}"
-        tmp.write_text(f"{t0} {t1}")
-        os.replace(tmp, ctl / "stamp" / name)
+        self.vclass = vclass or {}
 
     def main(self, path: IdentifierType) -> T:
         source = get_data_source(path)
         name = get_unique_id(source)
-        self._schedule(name)
+        _schedule(self, name)
 
         def ok():
-            text = path.read() if hasattr(path, "read") else Path(path).read_text()
-            lines = [l.strip() for l in text.splitlines() if l.strip()]
-            data = {lines[i][1:]: lines[i + 1] for i in range(0, len(lines), 2)}
-            return make_unaligned_seqs(data, moltype="dna", info={"source": str(path)})
+            return make_unaligned_seqs(_read_record(path), moltype="dna", info={"source": str(path)})
 
-        return _enact("c14_load", 1, self.plan, path, source, ok, [])
+        def wrong():
+            return _wrong_value(self.vclass.get(name, "dict_source"), name, source, 1, [])
+
+        return _enact("c14_load", 1, self.plan, name, path, source, ok, wrong)
 
 
 def _trail(seqs):
@@ -113,26 +151,143 @@ def _extend(seqs, step):
     return make_unaligned_seqs(data, moltype="dna", info={"source": seqs.info.source})
 
 
+def _seq_step(app, app_name, step, seqs):
+    source = get_data_source(seqs)
+    name = get_unique_id(source)
+    return _enact(
+        app_name, step, app.plan, name, seqs, source,
+        lambda: _extend(seqs, step),
+        lambda: _wrong_value(app.vclass.get(name, "dict_source"), name, source, step, _trail(seqs)),
+    )
+
+
 @define_app
 class c14_g1:
     """step 2"""
 
-    def __init__(self, plan: dict):
+    def __init__(self, plan, vclass=None):
         self.plan = plan
+        self.vclass = vclass or {}
 
     def main(self, seqs: UnalignedSeqsType) -> T:
-        return _enact("c14_g1", 2, self.plan, seqs, get_data_source(seqs), lambda: _extend(seqs, 2), _trail(seqs))
+        return _seq_step(self, "c14_g1", 2, seqs)
 
 
 @define_app
 class c14_g2:
     """step 3"""
 
-    def __init__(self, plan: dict):
+    def __init__(self, plan, vclass=None):
         self.plan = plan
+        self.vclass = vclass or {}
 
     def main(self, seqs: UnalignedSeqsType) -> T:
-        return _enact("c14_g2", 3, self.plan, seqs, get_data_source(seqs), lambda: _extend(seqs, 3), _trail(seqs))
+        return _seq_step(self, "c14_g2", 3, seqs)
 
 
-STEP_OF_ORIGIN = {"c14_load": 1, "c14_g1": 2, "c14_g2": 3, "write_seqs": 4, "write_json": 4, "write_db": 4}
+# --------------------------------------------------------------------- value family
+V = Union[dict, str, bytes, UnalignedSeqsType]
+VT = Union[SerialisableType, dict, str, bytes, UnalignedSeqsType]
+
+
+def value_make(vclass, name, payload, source, trail):
+    """the value of class `vclass` that stands for record `name` after the steps in `trail`"""
+    if vclass == "seqs":
+        data = {"id": payload}
+        data.update({f"g{k}": "ACGT"[:k] for k in trail if k > 1})
+        return make_unaligned_seqs(data, moltype="dna", info={"source": source})
+    if vclass == "str":
+        return f"c14v/T{'-'.join(str(k) for k in trail)}/{name}.fasta"
+    if vclass == "bytes":
+        return f"{name}|{payload}|{','.join(str(k) for k in trail)}".encode("utf8")
+    d = {"c14_name": name, "c14_payload": payload, "c14_trail": list(trail)}
+    if vclass == "dict_info":
+        d["info"] = {"source": source}
+    elif vclass == "dict_info_none":
+        # the shape of Sequence.to_rich_dict() / of a json record whose "info" is null
+        d.update({"name": name, "seq": payload, "moltype": "dna", "info": None})
+    elif vclass != "dict_plain":
+        raise GateTimeout(f"unknown value class {vclass!r}")
+    return d
+
+
+def value_parts(val):
+    """-> (name, payload, trail) of a value made by value_make (no use of cogent3's source lookup)"""
+    if isinstance(val, dict):
+        return val["c14_name"], val["c14_payload"], list(val["c14_trail"])
+    if isinstance(val, bytes):
+        name, payload, trail = val.decode("utf8").split("|")
+        return name, payload, [int(k) for k in trail.split(",") if k]
+    if isinstance(val, str):
+        p = Path(val)
+        return p.stem, None, [int(k) for k in p.parent.name[1:].split("-") if k]
+    d = val.to_dict()
+    return Path(val.info.source).stem, d["id"], _trail(val)
+
+
+@define_app(app_type=LOADER)
+class c14_vload:
+    """step 1: reads one fasta record into a value of the class chosen for that record"""
+
+    def __init__(self, plan, vclass, payloads, ctl="", gated=False, delays=None):
+        self.plan = plan
+        self.vclass = vclass
+        self.payloads = payloads
+        self.ctl = ctl
+        self.gated = gated
+        self.delays = delays or {}
+
+    def main(self, path: IdentifierType) -> VT:
+        source = get_data_source(path)
+        name = get_unique_id(source)
+        _schedule(self, name)
+
+        def ok():
+            payload = _read_record(path)["id"]
+            return value_make(self.vclass[name], name, payload, str(path), [1])
+
+        return _enact("c14_vload", 1, self.plan, name, path, path, ok, None)
+
+
+def _value_step(app, app_name, step, val):
+    name, payload, trail = value_parts(val)
+
+    def ok():
+        source = val.info.source if hasattr(val, "info") else (val.get("info") or {}).get("source") if isinstance(val, dict) else None
+        return value_make(app.vclass[name], name, payload or app.payloads[name], source, trail + [step])
+
+    # a NotCompleted made by the step itself is given the value it was working on as its source
+    return _enact(app_name, step, app.plan, name, val, val, ok, None)
+
+
+@define_app
+class c14_v1:
+    """step 2"""
+
+    def __init__(self, plan, vclass, payloads):
+        self.plan = plan
+        self.vclass = vclass
+        self.payloads = payloads
+
+    def main(self, val: V) -> VT:
+        return _value_step(self, "c14_v1", 2, val)
+
+
+@define_app
+class c14_v2:
+    """step 3"""
+
+    def __init__(self, plan, vclass, payloads):
+        self.plan = plan
+        self.vclass = vclass
+        self.payloads = payloads
+
+    def main(self, val: V) -> VT:
+        return _value_step(self, "c14_v2", 3, val)
+
+
+STEP_OF_ORIGIN = {
+    "c14_load": 1, "c14_g1": 2, "c14_g2": 3,
+    "c14_vload": 1, "c14_v1": 2, "c14_v2": 3,
+    "write_seqs": 4, "write_json": 4, "write_db": 4,
+}
